@@ -175,7 +175,7 @@ def _recipient_entries(token):
 
 def apply_fault(token, token2, fault, plan):
     k = fault["kind"]
-    if k in ("flip", "truncate", "extend", "splice", "set"):
+    if k in ("flip", "truncate", "truncate-front", "extend", "splice", "set"):
         addr = tuple(fault["addr"])
         try:
             data = rb.decode(_get(token, addr))
@@ -189,6 +189,10 @@ def apply_fault(token, token2, fault, plan):
             new = bytes(b)
         elif k == "truncate":
             new = data[:fault["n"]]
+        elif k == "truncate-front":
+            if fault["n"] >= len(data):
+                return None
+            new = data[fault["n"]:]
         elif k == "extend":
             new = data + bytes(fault["tail"])
         elif k == "set":
@@ -345,6 +349,9 @@ def enumerate_faults(token, plan, case):
             yield {"kind": "truncate", "addr": list(addr), "seg": kind, "n": max(0, len(data) - 1)}
             yield {"kind": "truncate", "addr": list(addr), "seg": kind, "n": 0}
             yield {"kind": "extend", "addr": list(addr), "seg": kind, "tail": [0]}
+            if kind == "encrypted_key":
+                for n in (1, 2):
+                    yield {"kind": "truncate-front", "addr": list(addr), "seg": kind, "n": n}
             if kind == "ciphertext":
                 yield {"kind": "truncate", "addr": list(addr), "seg": kind, "n": max(0, len(data) - 16)}
                 yield {"kind": "extend", "addr": list(addr), "seg": kind, "tail": [16] * 16}
@@ -388,7 +395,7 @@ def fault_class(fault) -> str:
     k = fault["kind"]
     if k == "flip":
         return "flip"
-    if k in ("truncate", "extend", "nonempty-ek", "set", "shift-boundary"):
+    if k in ("truncate", "truncate-front", "extend", "nonempty-ek", "set", "shift-boundary"):
         return "length"
     if k.startswith("epk"):
         return "epk"
@@ -416,6 +423,14 @@ def mint(case):
         pass
     if case["minter"] == "ref":
         token, _ = jp.ref_encrypt(plan, case["seed"], tuple(case["spelling"]), additions_in_protected=case["in_protected"])
+        if len(plan["recipients"]) == 1 and plan["recipients"][0]["alg"].startswith("RSA") and case["seed"] % 2 == 0:
+            # one RSA ciphertext in 256 starts with a zero octet: look for such a token (the randomness of the reference derives from the seed)
+            for i in range(1, 1500):
+                t, _ = jp.ref_encrypt(plan, case["seed"] + 1000003 * i, tuple(case["spelling"]), additions_in_protected=case["in_protected"])
+                ek = t.split(".")[1] if isinstance(t, str) else (t.get("encrypted_key") or t["recipients"][0].get("encrypted_key"))
+                if rb.decode(ek)[0] == 0:
+                    token = t
+                    break
     else:
         token = jp.jose_encrypt(plan, "attached")
     plan2 = copy.deepcopy(plan)
